@@ -13,12 +13,22 @@ META = {
                  "vm_compute in coqc, plus a Coq monitor of the set-union specification evaluated on the implementation's observations; "
                  "for BLS finalized proofs an executable model of Finalize / ValidateFinalizedProof (Model/BlsFinal.v, reusing the combination "
                  "index model), theorems over all key-set sizes and partitions, the real Finalize + ValidateFinalizedProof driven from real "
-                 "partitions (harness/c13fin) against the model and an independent round-trip monitor (Monitors/C13BlsFinm.v)",
+                 "partitions (harness/c13fin) against the model and an independent round-trip monitor (Monitors/C13BlsFinm.v); an executable model of tsi.CommitProofFinalizer + the receiver's "
+                 "previous-commit-proof validation (Model/CommitFinalizer.v) with composition theorems, tied by driving the real finalizer "
+                 "(verif hook) and the real ValidateFinalizedProof on generated commit proofs (harness/c13cpf, monitor Monitors/C13Cpfm.v)",
     "level": "Full for the simple scheme: MergeSparse = verified set union with exact flags and no panic (merge_sparse_spec, "
              "union, monotone, idempotent, order irrelevant), no bit without a valid signature as an invariant over all operation "
              "sequences (AddSignature, Merge, MergeSparse, Clone, Derive), sparse round-trip, ValidateFinalizedProof total for a "
              "non-empty trusted key list; generated key-id guards proved equal to their spec. Full for the BLS combination index "
-             "(decode_encode, encode_lt_binom, decode_total_iff, decode_sound). Partial: finalize/validate round-trip and the flags "
+             "(decode_encode, encode_lt_binom, decode_total_iff, decode_sound). Full for the simple scheme's finalized proofs (Proofs/SimpleFinalize.v): for ANY number of rest proofs, any "
+             "key-set size up to 65536 and any signer sets, ValidateFinalizedProof(Finalize(main, rest)) returns exactly the per-block signer "
+             "sets, with allSignaturesUnique = pairwise disjointness of those sets (double signers reported: "
+             "C13_simple_finalize_validate_roundtrip, _reports_double_signers). Full for the commit-proof hand-over (Properties/C13Cpf.v, "
+             "Model/CommitFinalizer.v): tsi.CommitProofFinalizer.Finalize never panics on a non-empty key list for any input and any Go map order "
+             "(the nil-map assignment is unreachable), and composed with HandleProposedHeader's reconstruction + ValidateFinalizedProof it hands "
+             "the receiver exactly the signer set of every block whenever the precommit proofs are well formed (C13_cpf_then_receive, also "
+             "instantiated with the real sign bytes through C15's injectivity theorem); the receiver-side reconstruction is re-implemented in "
+             "harness/c13cpf (inline code of HandleProposedHeader; the mirror harness exercises the original). Partial: the flags "
              "of full Merge are decided by the Coq monitor on the implementation and by correspondence, not by a general theorem; "
              "Full for the BLS aggregation tree (Model/BlsTree.v, all key-set sizes 1..65535): tree layout of New, invariant over all "
              "operation sequences (every bit < n and backed by a stored genuine aggregate; SigBits = real leaves covered by set nodes), "
